@@ -71,6 +71,21 @@ _DEFAULT_BUFFERS = (0.01, 100.0)
 _MEASURED = {}
 
 
+_MODEL_MEMO = {}
+
+
+def _model(ctx, op, args):
+    """a request to the Lean model, remembered: the model's operations are functions of their arguments and the
+    small clips of the grids repeat"""
+    from ..core import jkey
+    k = op + jkey(args)
+    if k not in _MODEL_MEMO:
+        if len(_MODEL_MEMO) > 50000:
+            _MODEL_MEMO.clear()
+        _MODEL_MEMO[k] = ctx.model(op, args)
+    return copy.deepcopy(_MODEL_MEMO[k])
+
+
 def _gtype(g):
     return g["type"] if isinstance(g, dict) else "BoundingBox"
 
@@ -194,7 +209,7 @@ def _judge_clip(ctx, clip, pe, ae, matches):
     if not two:
         return None
     tb, fb = _buffers()
-    out = ctx.model("judge_pairs", {"tb": rat(tb), "pred_geoms": [G.geom_json(e["geom"]) for e in pe],
+    out = _model(ctx, "judge_pairs", {"tb": rat(tb), "pred_geoms": [G.geom_json(e["geom"]) for e in pe],
                                      "ann_geoms": [G.geom_json(e["geom"]) for e in ae],
                                      "matches": [[x["src"], x["tgt"]] for x in matches]})
     verdict = {(i, j): v for i, j, v in out["pairs"]}
@@ -211,7 +226,7 @@ def _judge_clip(ctx, clip, pe, ae, matches):
                     f"{_gtype(g2)} {g2 if not isinstance(g2, dict) else g2['coordinates']} share no time-frequency region "
                     f"(clip {clip} match {(i, j)}, reported affinity {G._fl(x['affinity'])})")
         if v == "overlap":
-            want = frac(ctx.model("affinity_cf", {"tb": rat(tb), "fb": rat(fb), "g1": G.geom_json(g1),
+            want = frac(_model(ctx, "affinity_cf", {"tb": rat(tb), "fb": rat(fb), "g1": G.geom_json(g1),
                                                   "g2": G.geom_json(g2)})["affinity"])
         else:   # no closed form: the monitored contract
             want = measured_affinity(g1, g2, tb, fb)
@@ -363,21 +378,21 @@ def _holds_detection_inner(ctx, inp, io):
             return msg
         # the monitored contract of the matcher on this clip's filtered lists
         m = G.matcher_answer(pe, ae)
-        ok = ctx.model("matcher_cover", {"n": sum(1 for e in pe if e["geom"] is not None),
+        ok = _model(ctx, "matcher_cover", {"n": sum(1 for e in pe if e["geom"] is not None),
                                          "m": sum(1 for e in ae if e["geom"] is not None), "matcher": m})
         ctx.contract("MatcherCover", ok, inp, m, "match_geometries does not cover its inputs exactly once "
                                                  "with affinities in [0,1] (0 on one-sided entries)")
         # the only part of the matcher that stays a parameter of the geometry layer: the solver's pairs
         ng, mg = sum(1 for e in pe if e["geom"] is not None), sum(1 for e in ae if e["geom"] is not None)
         pairs = [[s, t] for s, t, _ in m if s is not None and t is not None]
-        ctx.contract("ValidAssignment", ctx.model("valid_assignment", {"n": ng, "m": mg, "pairs": pairs}), inp, pairs,
+        ctx.contract("ValidAssignment", _model(ctx, "valid_assignment", {"n": ng, "m": mg, "pairs": pairs}), inp, pairs,
                      "the pairs chosen by the matcher are not a partial injection of the source into the target positions")
         msg = _judge_clip(ctx, c["clip"], pe, ae, c["matches"])
         if msg:
             return msg
         # "every annotated and every predicted sound event appears in exactly one match", through the
         # Lean-side statement whose meaning is fixed by C08_holds_cover_sound
-        if not ctx.model("holds_cover", {"n_pred": len(pe), "n_ann": len(ae),
+        if not _model(ctx, "holds_cover", {"n_pred": len(pe), "n_ann": len(ae),
                                          "matches": [[x["src"], x["tgt"]] for x in c["matches"]]}):
             srcs = sorted(x["src"] for x in c["matches"] if x["src"] is not None)
             tgts = sorted(x["tgt"] for x in c["matches"] if x["tgt"] is not None)
@@ -543,8 +558,28 @@ def _distinct_predicted(pool, clips):
             e["tags"] = keep
 
 
+def _decorate(rng, inp):
+    """what the property does not mention must not matter: the detection confidence of a predicted sound event
+    (`SoundEventPrediction.score`: 0, 1/4, 1/2 or 1) and clip-level tags on either side"""
+    ids = list(range(len(TP.descriptors(inp))))
+    for c in inp["predictions"]:
+        for e in c.get("events", []):
+            if rng.random() < 0.5:
+                e["conf"] = rng.choice(["0", "1/4", "1/2", "1"])
+        if rng.random() < 0.25:
+            c["tags"] = G.single_label_scores(rng, ids)
+    for c in inp["annotations"]:
+        if rng.random() < 0.25:
+            c["tags"] = G.true_tags(rng, ids)
+    return inp
+
+
 def _pooled(rng, make, lo=1, hi=5):
     """an evalgen detection input over the legacy pool (30 %), an adversarial tag pool, or the three-taxa pool"""
+    return _decorate(rng, _pooled_plain(rng, make, lo, hi))
+
+
+def _pooled_plain(rng, make, lo, hi):
     r = rng.random()
     if r < 0.3:
         return make(G.gen_vocab(rng, lo, hi))
@@ -588,6 +623,16 @@ def gen_detection(rng):
         inp["predictions"] = []
     elif r < 0.06:
         inp["annotations"] = []
+    elif r < 0.2 and inp["predictions"]:
+        # a twin: another clip (own uuid) over the same recording and time window as a predicted clip, on one side
+        src = rng.choice(inp["predictions"])
+        side = rng.choice(["predictions", "annotations"])
+        if side == "predictions":
+            twin = {"clip": src["clip"] + 100, "events": copy.deepcopy(src["events"])}
+        else:
+            twin = {"clip": src["clip"] + 100, "events": [{"id": 900 + i, "geom": e["geom"], "tags": [t for t, _ in e["tags"]][:1]}
+                                                          for i, e in enumerate(src["events"])]}
+        inp[side].insert(rng.randint(0, len(inp[side])), twin)
     return inp
 
 
@@ -687,8 +732,16 @@ def _pair_cases(rng, n):
     for p in lists:
         for a in lists:
             yield {"predictions": p, "annotations": a}
+    # twins: clips 100 and 101 are other clips (own uuid) over the recording and time window of clips 0 and 1
+    tw = [list(p) for k in range(4) for p in itertools.permutations([0, 100, 1], k)]
+    for p in tw:
+        for a in tw:
+            yield {"predictions": p, "annotations": a}
     for _ in range(n):
         p, a = G.clip_ids(rng, rng.randint(0, 5), rng.randint(0, 3), rng.randint(0, 3))
+        if rng.random() < 0.3:
+            p = [x + 100 if rng.random() < 0.3 else x for x in p]
+            a = [x + 100 if rng.random() < 0.3 else x for x in a]
         yield {"predictions": p, "annotations": a}
 
 
@@ -911,19 +964,48 @@ def _symbolic_ties(ctx):
         def __getattr__(self, k):
             return getattr(real_data, k)
 
+    # the helper is called by parameter name, whatever its current signature: the encodings either through the
+    # (stubbed) encoding functions or handed in directly; a parameter this tie does not know -> nothing to trace
+    import inspect
+    try:
+        params = inspect.signature(D.evaluate_sound_event).parameters
+    except (TypeError, ValueError):
+        params = {}
+    known = {"sound_event_prediction", "sound_event_annotation", "encoder", "affinity", "true_class",
+             "predicted_class_scores"}
+    unknown = [n for n, q in params.items() if n not in known and q.default is inspect.Parameter.empty
+               and q.kind not in (inspect.Parameter.VAR_POSITIONAL, inspect.Parameter.VAR_KEYWORD)]
+    if not params or unknown or "affinity" not in params:
+        ctx.note("symbolic ties ext_pair_score_* skipped: evaluate_sound_event has a signature this tie does not know "
+                 f"({list(params)})")
+        return
+
+    def _find_match(r):
+        if hasattr(r, "score") and hasattr(r, "affinity"):
+            return r
+        if isinstance(r, (tuple, list)):
+            for x in r:
+                if hasattr(x, "score") and hasattr(x, "affinity"):
+                    return x
+        raise ValueError("evaluate_sound_event returns no match")
+
     for k in (None, 0, 1, 2):
         def run_score(k=k):
-            saved = (D.data, D.classification_encoding, D.prediction_encoding)
+            saved = {n: getattr(D, n) for n in ("data", "classification_encoding", "prediction_encoding") if hasattr(D, n)}
             D.data = _DataStub()
             D.classification_encoding = lambda tags, encoder: k
             D.prediction_encoding = lambda tags, encoder: _Row([ry["r0"], ry["r1"], ry["r2"]])
             try:
-                _y, _row, m = D.evaluate_sound_event(sound_event_prediction=_Rec(tags=[]),
-                                                     sound_event_annotation=_Rec(tags=[]), encoder=None,
-                                                     affinity=ry["a"])
+                kw = {"sound_event_prediction": _Rec(tags=[]), "sound_event_annotation": _Rec(tags=[]), "encoder": None,
+                      "affinity": ry["a"], "true_class": k, "predicted_class_scores": _Row([ry["r0"], ry["r1"], ry["r2"]])}
+                m = _find_match(D.evaluate_sound_event(**{n: v for n, v in kw.items() if n in params}))
                 return (m.score, m.affinity)
             finally:
-                D.data, D.classification_encoding, D.prediction_encoding = saved
+                for n in ("data", "classification_encoding", "prediction_encoding"):
+                    if n in saved:
+                        setattr(D, n, saved[n])
+                    elif hasattr(D, n):
+                        delattr(D, n)
         name = "ext_pair_score_" + ("none" if k is None else str(k))
         y = "none" if k is None else f"(some {k})"
         ctx.sym_tie(name, run_score, RV, "Rat × Rat", f"some (SE.Metrics.tcp ⟨{y}, [r0, r1, r2]⟩, a)",
@@ -934,7 +1016,8 @@ def _symbolic_ties(ctx):
 
 def _stage_pairing(ctx, n):
     ctx.run_cases(OPS["pair_clips"], list(_pair_cases(ctx.rng, n)))
-    ctx.exhaustive["pair_clips"] = "all pairs of duplicate-free id lists over {0,1,2} (16 x 16 orders)"
+    ctx.exhaustive["pair_clips"] = ("all pairs of duplicate-free id lists over {0,1,2} (16 x 16 orders) and over {0, twin of 0, 1} "
+                                    "(a twin: another clip over the same recording and time window)")
 
 
 def run(ctx):
